@@ -36,7 +36,59 @@ def _expected_delay(initial, rate, maxd, n, jitter, r):
     return max(1, math.ceil(d)), base
 
 
+def run_retry_concurrent(case):
+    """One strategy object shared by steps that fail at the same moment (the branches of a map / parallel get the same config): the
+    decisions of threads consulting it together, for the first time, are the decisions a single caller gets."""
+    import sys
+    import threading
+
+    rng = random.Random(case["direct_seed"])
+    viol, n_eval, classes = [], 0, set()
+    old_si = sys.getswitchinterval()
+    try:
+        sys.setswitchinterval(1e-6)
+        for it in range(case.get("n", 40)):
+            nf = rng.choice([2, 5, 20, 41, 80])
+            nt = rng.choice([2, 4, 8])
+            filters = ["no-match-%d.*(" % j for j in range(nf - 1)] + [rng.choice(["boom", re.compile("bo+m")])]
+            rng.shuffle(filters) if it % 3 == 0 else None
+            cfg = RetryStrategyConfig(max_attempts=5, initial_delay=Duration(1), max_delay=Duration(10), backoff_rate=2, jitter_strategy=JitterStrategy("NONE"),
+                                      retryable_errors=filters, retryable_error_types=[])
+            strat = create_retry_strategy(cfg)
+            errs = [E3("boom"), E3("no match at all"), E3("xx boom yy")]
+            want = [True, False, True]
+            bar = threading.Barrier(nt)
+            got: list = [None] * nt
+
+            def worker(k, strat=strat, errs=errs, bar=bar, got=got):
+                bar.wait()
+                try:
+                    got[k] = [bool(strat(e, 1).should_retry) for e in errs]
+                except Exception as e:  # noqa: BLE001
+                    got[k] = "raised %s" % type(e).__name__
+
+            ths = [threading.Thread(target=worker, args=(k,)) for k in range(nt)]
+            for t in ths:
+                t.start()
+            for t in ths:
+                t.join(10)
+            n_eval += nt * len(errs)
+            classes.add("concurrent|%d filters|%d threads" % (nf, nt))
+            bad = [g for g in got if g != want]
+            if bad:
+                viol.append(V("C12", "C12/strategy-function/concurrent-first-use-differs", "%d filters, %d threads: decisions %r, a single caller gets %r" % (nf, nt, bad[0], want)))
+            # and afterwards the same object still decides as before
+            if [bool(strat(e, 1).should_retry) for e in errs] != want:
+                viol.append(V("C12", "C12/strategy-function/decisions-changed-after-concurrent-use", "%d filters" % nf))
+    finally:
+        sys.setswitchinterval(old_si)
+    return {"execs": n_eval, "classes": classes, "violations": viol, "obs": {"direct_strategy_evaluations": n_eval, "concurrent_strategy_consultations": n_eval},
+            "sample": {"label": "direct-retry-strategy-concurrent", "trials": case.get("n", 40)}}
+
+
 def run_retry_direct(case):
+    if case.get("direct") == "retry-concurrent":
+        return run_retry_concurrent(case)
     rng = random.Random(case["direct_seed"])
     viol = []
     n_eval = 0
